@@ -58,6 +58,21 @@ func c02Policies() []*hist.PolicySpec {
 	ps = append(ps, lowD)
 	lowT := mk("targets-version-1", r0, 1, r0, map[string]hist.FileSpec{"targets": {Rules: []hist.RuleSpec{mainRule([]string{"P0"}, 1)}, Signers: []string{"T0"}, Version: 1}}) // 14
 	ps = append(ps, lowT)
+	// the root envelope stays byte-identical to the base state's (root
+	// version pinned, same keys, deterministic signature) while the rule files
+	// move: what ordinary use produces, since only edited files are re-signed.
+	// With "root-version-1" (13: same root, rule files at the publication
+	// counter) these give rule-file rollback and a disappearing delegated file
+	// under an unchanged root.
+	sameRootLowT := mk("same-root-targets-version-1", r0, 1, r0, map[string]hist.FileSpec{"targets": {Rules: []hist.RuleSpec{mainRule([]string{"P0"}, 1)}, Signers: []string{"T0"}, Version: 1}}) // 16
+	sameRootLowT.RootVersion = 1
+	ps = append(ps, sameRootLowT)
+	sameRootDeleg := mk("same-root-deleg-ok", r0, 1, r0, map[string]hist.FileSpec{ // 17
+		"targets":      {Rules: []hist.RuleSpec{mainRule([]string{"P0"}, 1)}, Signers: []string{"T0"}},
+		"protect-main": {Rules: []hist.RuleSpec{{Name: "inner-main", Patterns: []string{"git:" + refMain}, Principals: []string{"P2"}, Threshold: 1}}, Signers: []string{"P0"}},
+	})
+	sameRootDeleg.RootVersion = 1
+	ps = append(ps, sameRootDeleg)
 	return ps
 }
 
@@ -131,7 +146,7 @@ func TestC02(t *testing.T) {
 	}()
 	scs := c02Scenarios(evid.Thorough())
 	col.Bound("events_after_prefix", scs[0].Depth)
-	col.Rule("depth-first enumeration of every sequence of <= %d events after [base policy; authorised push; feature push] over {16 successor policy states: root rotated and signed by {old},{new},{old,new},{}; root threshold raised to 2 signed by 1 or 2; primary rule file forged (signed by an untrusted key, authorising it), unsigned, legitimately changed; delegated file signed as required / by an untrusted key / dangling; root, primary or delegated rule-file version lowered; delegated file dropped by any later state} x {push to main by the authorised, an unknown, a later-authorised and a delegated principal}; at every node full, latest-only, from-entry verification, VerifyMergeable and LoadCurrentState are compared with the chain conditions of the statement (successor root signed by the predecessor's root threshold, own rule files properly signed, nothing unreachable, no rollback, no disappearing file). A class is (mode, implementation error class, oracle verdict)", scs[0].Depth)
+	col.Rule("depth-first enumeration of every sequence of <= %d events after [base policy; authorised push; feature push] over {18 successor policy states: root rotated and signed by {old},{new},{old,new},{}; root threshold raised to 2 signed by 1 or 2; primary rule file forged (signed by an untrusted key, authorising it), unsigned, legitimately changed; delegated file signed as required / by an untrusted key / dangling; root, primary or delegated rule-file version lowered; the same with the root envelope kept byte-identical (root version pinned) while the primary rule file is rolled back or a delegated file added and dropped; delegated file dropped by any later state} x {push to main by the authorised, an unknown, a later-authorised and a delegated principal}; at every node full, latest-only, from-entry verification, VerifyMergeable and LoadCurrentState are compared with the chain conditions of the statement (successor root signed by the predecessor's root threshold, own rule files properly signed, nothing unreachable, no rollback, no disappearing file). A class is (mode, implementation error class, oracle verdict)", scs[0].Depth)
 	col.Assume("a verification depends on a policy entry if it judges an entry under it (all conditions required) or the entry precedes such a state in the chain (successor conditions required); first policy state trusted on first use")
 	if e1Replayer(scs, col) {
 		return
